@@ -347,7 +347,7 @@ def run(ctx):
         # Fortran line limit on the files actually written
         for root, _, fs in os.walk(od):
             for f in fs:
-                if f.endswith((".f", ".f90", ".F90")):
+                if f.lower().endswith((".f", ".f90")):
                     for ln, t in enumerate(open(os.path.join(root, f), encoding="utf-8", errors="replace").read().split("\n")):
                         if len(t) > 132 and not t.lstrip().startswith("!"):
                             f132.append((name, f, ln + 1, len(t)))
